@@ -3,18 +3,19 @@
 // (a) every byte string of length <= L over a class-representative 30-byte alphabet,
 // (b) every token sequence of length <= T over a ~20-token menu (tokens separated by one blank),
 //     each given to parse(s), parse(s, convert_xor=false) (when s contains '^') and parse_sbml(s), both as is and
-//     behind 16 blanks (so that the copy held by the parser lives in an exactly sized heap block and a
+//     behind 32 blanks (so that the copy held by the parser lives in an exactly sized heap block and a
 //     tokenizer that runs past the terminating NUL is seen by ASan);
 //     oracle: returns an expression or throws a SymEngineException; no signal, sanitizer report, foreign
 //     exception or stall; the padded and the unpadded run agree.
 // (c) every history of <= d inputs from a pool on ONE Parser / SbmlParser object: every answer (structural key or
 //     exception text) equals the answer of a fresh parser.
 //
-// Crash isolation: a start-up probe (in a forked child) tells whether the known defect class "boolean operator
-// applied to a non-Boolean operand" is present for an entry point.  While it is, inputs that contain a boolean
-// operator are executed in a forked grandchild (one fork per input) so that the ~10 % crashing inputs do not
-// kill the worker; everything else -- and everything once the defect is fixed -- runs in-process under the
-// framework's own crash/hang isolation.  What is executed and what is judged is the same in both modes.
+// Crash isolation: the known defect class (boolean operator / function applied to a non-Boolean operand: an
+// unchecked rcp_static_cast<const Boolean>) is first seen by UBSan's vptr check.  The driver supplies its own
+// handler for that check (see below), which records the event and longjmps out, so these inputs -- 10-50 % of
+// some enumerations -- do not kill the worker.  Anything else that goes wrong (ASan report, signal, stall) kills
+// or stalls the worker and is caught, re-run alone and reported by the framework.  VERIF_C18_NOHOOK=1 disables
+// the handler: inputs containing a boolean operator are then run one per forked child instead.
 #include "common.h"
 #include "key.h"
 #include <symengine/parser/parser.h>
@@ -27,7 +28,12 @@ using namespace verif;
 
 extern "C" const char *__asan_default_options()
 {
-    return "symbolize=0"; // thousands of expected reports while the known defect is present; replay re-enables it via env
+    // only in the cross-validation mode do thousands of expected reports reach the sanitizer runtime; otherwise
+    // reports are rare and the framework extracts the call site from the symbolized summary
+    // a small quarantine keeps the allocator re-using warm pages (every parse allocates and frees a few dozen blocks;
+    // with the default 256 MB quarantine each of them faults in fresh memory); use-after-free inside one parse or
+    // between consecutive parses is still within the window
+    return getenv("VERIF_C18_NOHOOK") ? "symbolize=0:quarantine_size_mb=16" : "quarantine_size_mb=16";
 }
 
 enum Entry { E_PARSE = 0, E_NOXOR = 1, E_SBML = 2 };
@@ -359,7 +365,7 @@ static std::vector<std::string> CN = {"parser_runs",
                                       "runs_threw_non_library_exception",
                                       "runs_stopped_by_UBSan_bad_cast(trapped in-process)"};
 
-static const std::string PAD(16, ' ');
+static const std::string PAD(32, ' ');
 
 // run one input through one entry point (as is and padded), judge, report
 static void judge(Entry e, const std::string &s, const std::string &what, Ctx &c)
@@ -419,7 +425,7 @@ static void judge(Entry e, const std::string &s, const std::string &what, Ctx &c
     if (o[0].cls != 4 && o[0].cls != 5 && o[1].cls != 4 && o[1].cls != 5 && (o[0].cls != o[1].cls || (o[0].cls == 0 && o[0].text != o[1].text))) {
         std::string sig = std::string("leading-blanks-change-result:") + ENAME[e];
         if (first_of_class(sig))
-            c.violation(sig, std::string(ENAME[e]) + "(" + jstr(s) + ") " + CLSN[o[0].cls] + " " + o[0].text + " but with 16 leading blanks "
+            c.violation(sig, std::string(ENAME[e]) + "(" + jstr(s) + ") " + CLSN[o[0].cls] + " " + o[0].text + " but with 32 leading blanks "
                                  + CLSN[o[1].cls] + " " + o[1].text);
     }
 }
@@ -678,45 +684,43 @@ int main(int argc, char **argv)
     T.alpha = {"x", "2", "2x", "1.5", "+", "-", "*", "/", "**", "(", ")", ",", "<", "==", "&", "|", "~", "Piecewise", "sin", "True"};
     TS.alpha = {"x", "2", "+", "-", "*", "/", "^", "%", "(", ")", ",", "<", "==", "&&", "||", "!", "piecewise", "and", "not", "true"};
     T.sep = TS.sep = " ";
-    T.maxlen = TS.maxlen = 4;
+    T.maxlen = TS.maxlen = thorough ? 4 : 3;
     T.build();
     TS.build();
+    // sub-menus (every token kind and every crash trigger kept) for one more token
+    Strings T5 = T, TS5 = TS;
+    T5.alpha = {"x", "2x", "1.5", "-", "*", "**", "(", ")", ",", "<", "&", "~", "Piecewise", "sin"};
+    TS5.alpha = {"x", "2", "-", "*", "^", "%", "(", ")", ",", "<", "&&", "!", "piecewise", "not"};
+    T5.maxlen = TS5.maxlen = thorough ? 5 : 4;
+    T5.build();
+    TS5.build();
     if (!past_deadline()) {
         run_strings("tokens:parse", T, false);
         run_strings("tokens:parse_sbml", TS, true);
-        bound += "; all token sequences of length <= 4 over 20 tokens";
+        bound += "; all token sequences of length <= " + std::to_string(T.maxlen) + " over 20 tokens";
     }
     // '^' as xor (convert_xor=false) in token sequences: same menu with "**" spelled "^"
     Strings TX = T;
     TX.alpha[8] = "^";
-    TX.maxlen = thorough ? 4 : 3;
     TX.build();
     if (!past_deadline()) {
         run_strings("tokens:parse(^)", TX, false);
-        bound += "; token sequences with '^' (both convert_xor settings) of length <= " + std::to_string(TX.maxlen);
+        bound += " (also with '^' under both convert_xor settings)";
     }
-    if (thorough) {
-        // longer strings over sub-alphabets that still contain every character class and every crash trigger
+    if (!past_deadline()) {
+        run_strings("tokens+1:parse", T5, false);
+        run_strings("tokens+1:parse_sbml", TS5, true);
+        bound += "; all token sequences of length <= " + std::to_string(T5.maxlen) + " over 14 tokens";
+    }
+    if (thorough && !past_deadline()) {
+        // longer byte strings over a sub-alphabet that still contains every character class and every crash trigger
         Strings B5;
         B5.alpha = {" ", "1", "x", ".", "-", "*", "(", ")", ",", "^", "~", "<", "&", "|", "=", "!"};
         B5.maxlen = 5;
         B5.build();
-        Strings T5 = T, TS5 = TS;
-        T5.alpha = {"x", "2x", "1.5", "-", "*", "**", "(", ")", ",", "<", "&", "~", "Piecewise", "sin"};
-        TS5.alpha = {"x", "2", "-", "*", "^", "%", "(", ")", ",", "<", "&&", "!", "piecewise", "not"};
-        T5.maxlen = TS5.maxlen = 5;
-        T5.build();
-        TS5.build();
-        if (!past_deadline()) {
-            run_strings("bytes5:parse", B5, false);
-            run_strings("bytes5:parse_sbml", B5, true);
-            bound += "; all byte strings of length <= 5 over 16 bytes";
-        }
-        if (!past_deadline()) {
-            run_strings("tokens5:parse", T5, false);
-            run_strings("tokens5:parse_sbml", TS5, true);
-            bound += "; all token sequences of length <= 5 over 14 tokens";
-        }
+        run_strings("bytes5:parse", B5, false);
+        run_strings("bytes5:parse_sbml", B5, true);
+        bound += "; all byte strings of length <= 5 over 16 bytes";
     }
     phase("enumerations done");
     if (past_deadline())
@@ -726,7 +730,7 @@ int main(int argc, char **argv)
     R.bound_completed = bound;
     R.rule = "E4: every string over the byte alphabet {NUL,blank,0,1,8,x,e,I,_,0xff,.,-,+,/,(,),*,comma,^,~,<,>,&,|,@,=,!,$,0x01,%} (one byte per "
              "re2c character class and every operator byte) and every blank-separated sequence over the token menus, up to the stated "
-             "lengths, is given to parse, parse(convert_xor=false) (if it contains ^) and parse_sbml, as is and behind 16 blanks, under "
+             "lengths, is given to parse, parse(convert_xor=false) (if it contains ^) and parse_sbml, as is and behind 32 blanks (libstdc++ then allocates exactly size+1 bytes for the copy), under "
              "ASan+UBSan; E2: every history of pool inputs on one parser object is compared answer by answer with fresh parsers. "
              "distinct_nontrivial = runs that returned an expression + histories of length >= 2";
     R.assumptions = {"ASan/UBSan detect the memory errors and undefined behaviour of interest (intra-object overreads are not detected; inputs are "
